@@ -7,7 +7,7 @@ from ..facets.poly import PolyFacet
 from ..facets.pred import Pred
 from ..ir import walk
 from ..loader import AnalysisError
-from .common import INTERP_MOD, call_args, ext_name, is_ext_call, scatter_chain
+from .common import INTERP_MOD, call_args, ext_name, is_ext_call, scatter_chain, strip_cast
 from .taus_ctx import TausCtx, interpolator_calls
 
 EXPLANATION = (
@@ -23,7 +23,7 @@ EXPLANATION = (
 )
 
 
-def coverage_rules(ck, rule, I, pr, arr, betas, grid_axis_name, func, what):
+def coverage_rules(ck, rule, I, pr, arr, betas, grid_axis_name, func, what, angle_operand=None):
     """R04.2 / R05.3: clamp partition, decided per REGION of the emergence angle
     (below the table / inside / above): which value does an event of that region end up with?
     Insensitive to how the array is pre-filled or in which order the stores are written.
@@ -43,12 +43,16 @@ def coverage_rules(ck, rule, I, pr, arr, betas, grid_axis_name, func, what):
     fs = [pr.formula(m) for m in masks]
     # bounds: comparisons of the angle array against something
     lows, highs = {}, {}
-    for f in fs:
+    clip_fs = []
+    for n in walk([arr]):
+        if n.op == "Scatter" and n.attr is None and _is_angles(n, betas):
+            clip_fs.append(pr.formula(n.args[1]))
+    for f in fs + clip_fs:
         for k in pr.atoms_of(f):
             kind, a, b = pr.atoms[k]
-            if kind == "lt" and a is betas:
+            if kind == "lt" and _is_angles(a, betas):
                 lows[k] = b
-            elif kind == "lt" and b is betas:
+            elif kind == "lt" and _is_angles(b, betas):
                 highs[k] = a
     if len(lows) != 1 or len(highs) != 1:
         ck.ob(rule, f"{what}: one lower and one upper angle bound", False, arr, func,
@@ -88,13 +92,28 @@ def coverage_rules(ck, rule, I, pr, arr, betas, grid_axis_name, func, what):
         val = final.args[2] if final is not None else fill
         ck.ob(rule, f"{what}: every event {label} is assigned a value", True, final if final is not None else base,
               func, f"value: {g.show(val, 2)}")
-        out[rname] = (final, lo_b if rname == "low" else (hi_b if rname == "high" else None), val)
+        out[rname] = (final, lo_b if rname == "low" else (hi_b if rname == "high" else None), val, rf)
         if rname == "valid" and final is not None:
-            inside = pr.implies(pr.formula(final.args[1]), rf)
+            fm = pr.formula(final.args[1])
+            inside = pr.implies(fm, rf)
+            ok_in = bool(inside and inside[0])
+            detail = "" if ok_in else f"store mask '{g.show(final.args[1], 2)}' also selects angles outside the table"
+            if not ok_in and angle_operand is not None:
+                # the mask also covers out-of-table events: fine iff those events look the table up at a
+                # table node (e.g. the angle array was clipped first), never at their own angle
+                X = angle_operand(final)
+                ok_in = X is not None
+                for oname, oreg in (("low", regions["low"]), ("high", regions["high"])):
+                    dj = pr.disjoint(oreg, fm)
+                    if dj and dj[0]:
+                        continue
+                    got = angle_value_in_region(pr, X, oreg, betas) if X is not None else None
+                    if not (isinstance(got, tuple) and (g.same(got[1], lo_b) or g.same(got[1], hi_b))):
+                        ok_in = False
+                        detail = (f"events {oname} the table are looked up at "
+                                  f"{'their own angle' if got == 'self' else 'an undetermined angle'}")
             ck.ob(rule, f"{what}: the in-table computation is applied to in-table angles only (out-of-table "
-                  "angles would make the look-up raise)", bool(inside and inside[0]), final, func,
-                  "" if (inside and inside[0]) else f"store mask '{g.show(final.args[1], 2)}' also selects "
-                  "angles outside the table")
+                  "angles would make the look-up raise)", ok_in, final, func, detail)
 
     def axis_end(n, want_idx):
         # n == grid[axis][want_idx]
@@ -106,6 +125,43 @@ def coverage_rules(ck, rule, I, pr, arr, betas, grid_axis_name, func, what):
     ck.ob(rule, f"{what}: upper bound is the last node of the table's '{grid_axis_name}' axis",
           axis_end(hi_b, -1), hi_b, func, g.show(hi_b, 3))
     return out
+
+
+def angle_value_in_region(pr, X, region, betas):
+    """what an event of `region` finds in the angle operand X: 'self' (its own angle), ('const', node)
+    or None (undetermined)"""
+    X = strip_cast(X)
+    if X is betas:
+        return "self"
+    if X.op == "Call" and X.args[0].op == "Ext" and X.args[0].attr in ("numpy.full", "numpy.full_like") and len(X.args) > 2:
+        return ("const", X.args[2])
+    if X.op == "Scatter" and X.attr is None:
+        f = pr.formula(X.args[1])
+        i1 = pr.implies(region, f)
+        if i1 and i1[0]:
+            return ("const", X.args[2])
+        i2 = pr.implies(region, ("not", f))
+        if i2 and i2[0]:
+            return angle_value_in_region(pr, X.args[0], region, betas)
+        return None
+    if X.op == "Subscript":
+        return angle_value_in_region(pr, X.args[0], region, betas)
+    return None
+
+
+def sampler_angle_operand(store):
+    its = [n for n in walk([store.args[2]]) if n.op == "NdIter"]
+    if len(its) == 1 and len(its[0].extra.get("operands", ())) >= 2:
+        return its[0].extra["operands"][1]
+    return None
+
+
+def _is_angles(n, betas):
+    """the angle argument itself, possibly cast / clipped in place (later versions of the same array)"""
+    n = strip_cast(n)
+    while n.op == "Scatter":
+        n = strip_cast(n.args[0])
+    return n is betas
 
 
 def is_f32_eps(n):
@@ -148,18 +204,26 @@ def run(ck, ctx):
             raise AnalysisError("cannot identify the sampled fraction array in Taus.tau_energy")
         # ---- R04.2 coverage
         pr = Pred(I)
-        kinds = coverage_rules(ck, "R04.2", I, pr, z, T.betas, "beta_rad", func, "tau energy fraction")
+        kinds = coverage_rules(ck, "R04.2", I, pr, z, T.betas, "beta_rad", func, "tau energy fraction",
+                               angle_operand=sampler_angle_operand)
         if "high" in kinds:
             v = kinds["high"][2]
             ck.ob("R04.2", "angles above the table get the float32-eps constant (negligible energy)",
                   is_f32_eps(v), kinds["high"][0] or z, func, g.show(v, 3))
-        if "low" in kinds:
-            v = kinds["low"][2]
-            fulls = [n for n in walk([v]) if is_ext_call(n, "numpy.full", "numpy.full_like")]
-            okl = any(g.same(n.args[2], kinds["low"][1]) for n in fulls if len(n.args) > 2)
-            ck.ob("R04.2", "angles below the table are sampled from the table's minimum-angle distribution", okl,
-                  kinds["low"][0] or z, func, "sampler called with beta = " +
-                  (", ".join(g.show(n.args[2], 2) for n in fulls if len(n.args) > 2) or "?"))
+        for rname, label in (("low", "angles below the table are sampled from the table's minimum-angle distribution"),
+                             ("valid", "angles inside the table are sampled at their own angle")):
+            if rname not in kinds:
+                continue
+            sc, bound, v, rf = kinds[rname]
+            its = [n for n in walk([v]) if n.op == "NdIter"]
+            ok = False
+            detail = f"{len(its)} sampler loop(s) in the stored value"
+            if len(its) == 1 and len(its[0].extra.get("operands", ())) >= 2:
+                X = its[0].extra["operands"][1]
+                got = angle_value_in_region(pr, X, rf, T.betas)
+                ok = (got == "self") if rname == "valid" else (isinstance(got, tuple) and g.same(got[1], bound))
+                detail = f"angle operand for these events: {got if isinstance(got, str) else (g.show(got[1], 2) if got else 'undetermined')}"
+            ck.ob("R04.2", label, ok, sc or z, func, detail)
         # ---- R04.1 mask consistency
         lc = LenClass(I, rowwise_select_funcs={"vec_1d_interp"})
         for n in (T.betas, T.log_e_nu, T.u):
@@ -207,7 +271,7 @@ def run(ck, ctx):
                 ck.ob("R04.5", f"sampler for the '{kind}' events returns the iterator's allocated operand "
                       "(complete for batches larger than the buffer)", b0.op == "NdAlloc", val,
                       "grid_cdf_sampler.sample", f"returns {g.show(b0, 1)}")
-        ck.floor("R04.1", n_sites, 2, "masked sampler calls")
+        ck.floor("R04.1", n_sites, 1, "masked sampler calls")
         # ---- R04.3 bounds discipline
         calls = interpolator_calls(walk([res]))
         for n, q, kws in calls:
